@@ -697,7 +697,14 @@ impl<D: Data<Elem = A>, A: Float + LinalgScalar + DivAssign + Sum> AffFuncBase<P
         let mut raw_dist = self.distance_raw(point);
         for (row, mut dist) in zip(self.mat.outer_iter(), raw_dist.outer_iter_mut()) {
             let norm: A = row.iter().map(|&x| x.powi(2)).sum::<A>().sqrt();
-            dist.map_inplace(|x| *x /= norm);
+            dist.map_inplace(|x| {
+                // the row 0 <= 0 includes all points (0 / 0 would be NaN)
+                if norm.is_zero() && x.is_zero() {
+                    *x = A::infinity();
+                } else {
+                    *x /= norm;
+                }
+            });
         }
         raw_dist
     }
